@@ -855,8 +855,14 @@ impl EmptiedLikeFresh {
         let mut c = q.clone();
         c.q_clear();
         cases += self.continuations(&c, "clear()")?;
-        for f in 0..=(n + 1) {
-            for b in 0..=(n + 1 - f) {
+        // every (front, back) consumption pattern on small queues; beyond 12 elements a structured
+        // family (nothing, one or two from either end, halves, all but one, all, one past the end)
+        let cands: Vec<usize> = if n <= 12 { (0..=n + 1).collect() } else { vec![0, 1, 2, n / 2, n - 1, n, n + 1] };
+        for &f in &cands {
+            for &b in &cands {
+                if f + b > n + 1 {
+                    continue;
+                }
                 for end in [End::Drop, End::Forget] {
                     let mut c = q.clone();
                     let mut mm = m.clone();
